@@ -912,9 +912,12 @@ def compile (T : BTables) (admits : String → Bool) (e : Expr) : Option Compile
 
 abbrev Env := String → Option NV
 
+/-- `repr` of a float that is not a Python literal: the generated function raises NameError -/
+def notALiteral (t : String) : Bool := t = "inf" || t = "-inf" || t = "nan"
+
 /-- value of the generated expression with the parameters bound by `ρ` -/
 def PyExpr.eval (ρ : Nat → Res) : PyExpr → Res
-  | .lit v _ => .ok (.sc v)
+  | .lit v t => if notALiteral t then .raised else .ok (.sc v)
   | .name i => ρ i
   | .bin t l r =>
     match binSem t with
